@@ -7,7 +7,7 @@ import FfcxModel.Driver.Exec
 import FfcxModel.Driver.Simp
 import FfcxModel.Driver.Static
 import FfcxModel.Driver.Scope
--- import FfcxModel.Driver.Dtype   -- (re-enabled when the dtype cluster has renamed its declsS)
+import FfcxModel.Driver.Dtype
 
 open Ffcx
 
@@ -25,6 +25,7 @@ def dispatch (req : Sexp) : Except String Sexp :=
     | "hopmod" => Driver.handleHopMod args
     | "scoped" => Driver.handleScoped args
     | "scopecert" => Driver.handleScopeCert args
+    | "dtypecert" => Driver.handleDtypeCert args
     | "mentions" => Driver.handleMentions args
     | "floatprod" => Driver.handleFloatProd args
     | "miglobal" => Driver.handleMiGlobal args
